@@ -194,6 +194,24 @@ impl PairWorld {
         self.app.execute_contract(Addr::unchecked(who), self.pair.clone(),
             &pair::ExecuteMsg::ProvideLiquidity { assets: if rev { [a1, a0] } else { [a0, a1] }, slippage_tolerance: tol, receiver }, &funds)
     }
+    /// ProvideLiquidity with a malformed asset list, every listed native amount really attached:
+    /// 1 = asset 0 twice, 2 = asset 1 twice, 3 = [asset 0, a foreign denom], 4 = [a foreign denom, asset 1]
+    pub fn provide_malformed(&mut self, who: &str, variant: u8, d0: u128, d1: u128) -> anyhow::Result<AppResponse> {
+        self.allow(who, 0, d0);
+        self.allow(who, 1, d1);
+        let a0 = Asset { info: self.assets[0].clone(), amount: Uint128::new(d0) };
+        let a1 = Asset { info: self.assets[1].clone(), amount: Uint128::new(d1) };
+        let junk = |x: u128| Asset { info: native(DENOMS[3]), amount: Uint128::new(x) };
+        let (assets, mut funds) = match variant {
+            1 => ([a0.clone(), a0.clone()], self.funds_for(&[(0, d0)])),
+            2 => ([a1.clone(), a1.clone()], self.funds_for(&[(1, d1)])),
+            3 => { let mut f = self.funds_for(&[(0, d0)]); f.push(coin(d1, DENOMS[3])); ([a0.clone(), junk(d1)], f) }
+            _ => { let mut f = self.funds_for(&[(1, d1)]); f.push(coin(d0, DENOMS[3])); ([junk(d0), a1.clone()], f) }
+        };
+        funds.sort_by(|a, b| a.denom.cmp(&b.denom));
+        self.app.execute_contract(Addr::unchecked(who), self.pair.clone(),
+            &pair::ExecuteMsg::ProvideLiquidity { assets, slippage_tolerance: None, receiver: None }, &funds)
+    }
     pub fn withdraw(&mut self, who: &str, amount: u128) -> anyhow::Result<AppResponse> {
         self.app.execute_contract(Addr::unchecked(who), self.lp.clone(),
             &Cw20ExecuteMsg::Send { contract: self.pair.to_string(), amount: Uint128::new(amount),
